@@ -35,6 +35,17 @@ func subFixedProbe() int {
 	return 0
 }
 
+// subNegFixProbe tells whether /repo already contains repo_patches/sub_wager_nonneg_deduct.diff
+// (the subaccount wager ticket payload rejects negative deductions).
+func subNegFixProbe() int {
+	p := subtypes.SubAccWagerTicketPayload{Msg: &bettypes.MsgWager{Creator: "x", Props: &bettypes.WagerProps{}},
+		MainaccDeductAmount: sdkmath.NewInt(-1), SubaccDeductAmount: sdkmath.NewInt(2)}
+	if err := p.Validate(sdkmath.NewInt(1)); err != nil && strings.Contains(err.Error(), "negative") {
+		return 1
+	}
+	return 0
+}
+
 func subClass(err error, panicked bool) string {
 	if err == nil {
 		return "ok"
@@ -149,7 +160,7 @@ func (w *subWorld) monitors(o *subObs, op string) {
 			w.failOnce(fmt.Sprint("lb", a), "lock_bound", cls, fmt.Sprintf("subaccount %d released %s by %d unlocked-balance withdrawals, only %s has reached its unlock time (now %d, locks %v)",
 				a, g.released, g.nRel, ul, w.e.Time, o.locks[a]))
 		} else if g.leaked.IsPositive() && g.released.Add(g.leaked).GT(ul) && op == "WG" {
-			w.failOnce(fmt.Sprint("les", a), "locked_exit_only_staked", "wager-deduct-not-staked", fmt.Sprintf("subaccount %d: %s left to the owner's free balance by wagers that charged less than the subaccount deduction, "+
+			w.failOnce(fmt.Sprint("les", a, w.leakClass), "locked_exit_only_staked", w.leakClass, fmt.Sprintf("subaccount %d: %s left to the owner's free balance by wagers that charged less than the subaccount deduction, "+
 				"released %s, unlocked so far %s", a, g.leaked, g.released, ul))
 		}
 	}
@@ -644,6 +655,9 @@ func (w *subWorld) opHouseWithdraw() {
 		}
 	case "panic":
 		paid = calc
+		if !w.injected {
+			w.fail("hooks_total", "house-withdraw-unspend-panic", fmt.Sprintf("HouseWithdraw panicked un-spending %s (no injected hook calls in this history)", calc))
+		}
 	case "ext":
 		if tkOk {
 			wdOk = false
@@ -725,7 +739,15 @@ func (w *subWorld) opWager() {
 		g.staked = g.staked.Add(charged)
 		if gain.IsPositive() {
 			g.leaked = g.leaked.Add(gain)
-			w.out.Count("wager.undercharged")
+			if main < 0 {
+				// the ticket's main-account deduction is negative: the subaccount deduction exceeds the bet amount
+				w.leakClass = "wager-negative-main-deduct"
+				w.out.Count("wager.leak.negative-main")
+			} else {
+				// the bet module charged less than the bet amount (zero-part / under-charged bets)
+				w.leakClass = "wager-undercharged-by-bet-module"
+				w.out.Count("wager.leak.undercharged")
+			}
 		}
 		if !charged.Equal(sdkmath.NewInt(amount)) {
 			w.out.Count("wager.charged-ne-amount")
@@ -766,6 +788,7 @@ func (w *subWorld) plainWager() {
 func runSub(seed uint64, n int, out *Out) {
 	fixed := int(envInt("VERIF_SUB_FIXED", int64(subFixedProbe())))
 	out.Op("CFG fixed %d", fixed)
+	out.Op("CFG negfix %d", int(envInt("VERIF_SUB_NEGFIX", int64(subNegFixProbe()))))
 	nOps := int(envInt("VERIF_SUB_OPS", 60))
 	for h := 0; h < n; h++ {
 		if skipHist(h) {
